@@ -275,8 +275,10 @@ func (e *env) runCase(tc *tcase) {
 	}
 }
 
-// async: the expiry goroutine the real code starts itself. delay = real timer.
-func (e *env) asyncCase(delay time.Duration) {
+// async: the expiry goroutine the real code starts itself when it handles an
+// OpenSecureChannel response. Channel ch, first token tok (creation time so far
+// in the past that the expiry is due after `delay`), renewed by tok+1.
+func (e *env) asyncCase(ch, tok uint32, delay time.Duration) {
 	uri, mode := ua.SecurityPolicyURIBasic256Sha256, ua.MessageSecurityModeSignAndEncrypt
 	cfg := h.RecvSecureConfig(uri, mode, e.keyA, e.keyB.CertDER)
 	rc, err := h.RecvFreshChannel(cfg, h.RecvAck(65535, 65535, 512, 2*1024*1024), false, 0, 0)
@@ -288,35 +290,35 @@ func (e *env) asyncCase(delay time.Duration) {
 	defer rc.SC.VerifForget()
 	n1 := &nonces{e.rnd.Bytes(32), e.rnd.Bytes(32)}
 	n2 := &nonces{e.rnd.Bytes(32), e.rnd.Bytes(32)}
+	e.evMu.Lock()
+	delete(e.done, [2]uint32{ch, tok}) // events of earlier cases with the same ids
+	e.evMu.Unlock()
 	// lifetime 1 h: the expiry is due at createdAt + 4500 s
 	created := time.Now().Add(-4500*time.Second + delay)
-	if err := rc.SC.VerifHandleOPNResponse(7, 1, created, 3600000, n1.local, n1.server); err != nil {
+	if err := rc.SC.VerifHandleOPNResponse(ch, tok, created, 3600000, n1.local, n1.server); err != nil {
 		e.r.InfraError = err.Error()
 		return
 	}
-	if err := rc.SC.VerifHandleOPNResponse(7, 2, time.Now(), 3600000, n2.local, n2.server); err != nil {
+	if err := rc.SC.VerifHandleOPNResponse(ch, tok+1, time.Now(), 3600000, n2.local, n2.server); err != nil {
 		e.r.InfraError = err.Error()
 		return
 	}
-	deadline := time.Now().Add(delay + 20*time.Second)
-	for {
+	// the timer is due (after `delay`): the goroutine must finish shortly afterwards
+	ran := false
+	deadline := time.Now().Add(delay + 15*time.Second)
+	for !ran && time.Now().Before(deadline) {
 		e.evMu.Lock()
-		n := e.done[[2]uint32{7, 1}]
+		ran = e.done[[2]uint32{ch, tok}] > 0
 		e.evMu.Unlock()
-		if n > 0 {
-			break
+		if !ran {
+			time.Sleep(5 * time.Millisecond)
 		}
-		if time.Now().After(deadline) {
-			e.r.InfraError = "the expiry goroutine of token 1 did not finish in time"
-			return
-		}
-		time.Sleep(5 * time.Millisecond)
 	}
 	e.evMu.Lock()
-	delete(e.done, [2]uint32{7, 1})
+	delete(e.done, [2]uint32{ch, tok})
 	e.evMu.Unlock()
 	sealer, _ := h.NewRecvSealer(uri, mode, n1.local, n1.server)
-	w, err := sealer.Seal(h.RecvRefChunk{Type: 'F', ChannelID: 7, TokenID: 1, Seq: 9, Req: 9, Body: []byte{1}})
+	w, err := sealer.Seal(h.RecvRefChunk{Type: 'F', ChannelID: ch, TokenID: tok, Seq: 9, Req: 9, Body: []byte{1}})
 	if err != nil {
 		e.r.InfraError = err.Error()
 		return
@@ -325,17 +327,27 @@ func (e *env) asyncCase(delay time.Duration) {
 	rc.Conn.SetReadDeadline(time.Now().Add(20 * time.Second))
 	_, rerr := rc.SC.VerifReadChunk()
 	table := tableText(rc.SC.VerifInstanceTable())
-	c := fmt.Sprintf("async delay=%s o:7:1:1(expiry due) o:7:2:2 wait(expire.done 7/1) c:7:1", delay)
+	c := fmt.Sprintf("async delay=%s o:%d:%d:1(expiry due) o:%d:%d:2 wait(expire.done) c:%d:1", delay, ch, tok, ch, tok+1, ch)
 	e.r.Count(c, true)
 	e.r.Hit("async:real-goroutine")
+	e.r.Hit(map[bool]string{true: "async:expiry-ran", false: "async:expiry-did-not-run"}[ran])
 	e.r.TracesValidated++
 	if rerr == nil {
-		e.r.Confirm(sigTokIdx, fmt.Sprintf("real expiry goroutine (timer %s) finished for channel 7 token 1, renewed by token 2: a chunk under token 1's keys is still accepted; table %s", delay, table))
-		e.r.Fail(c, sigTokIdx, "chunk under the keys of the replaced and expired token 1 accepted; table "+table)
+		// the chunk under the replaced and long expired token is accepted
+		sig := ""
+		if tok != ch && ran { // signature as above; an expiry that never ran is a different defect
+			sig = sigTokIdx
+			e.r.Confirm(sig, fmt.Sprintf("real expiry goroutine (timer %s) finished for channel %d token %d, renewed by token %d: a chunk under token %d's keys is still accepted; table %s", delay, ch, tok, tok+1, tok, table))
+		}
+		detail := fmt.Sprintf("chunk under the keys of the replaced token %d, whose lifetime + 25%% elapsed long ago, is accepted; table %s", tok, table)
+		if !ran {
+			detail += " — the expiry of the token never ran (no expire.done within 15 s of the due time)"
+		}
+		e.r.Fail(c, sig, detail)
 	}
-	if e.d != nil {
+	if e.d != nil && ran {
 		impl := map[bool]string{true: "acc", false: "security"}[rerr == nil] + " " + table
-		e.r.Compare(e.d, "tokens o:7:1:1 o:7:2:2 e:7:1:1 c:7:1", impl)
+		e.r.Compare(e.d, fmt.Sprintf("tokens o:%d:%d:1 o:%d:%d:2 e:%d:%d:1 c:%d:1", ch, tok, ch, tok+1, ch, tok, ch), impl)
 	}
 }
 
@@ -408,9 +420,11 @@ func main() {
 	for _, l := range o.CorpusLines() {
 		e.replay(l)
 	}
-	e.asyncCase(0)
+	e.asyncCase(7, 1, 0) // token id ≠ channel id: the finding
+	e.asyncCase(5, 5, 0) // token id = channel id: the expiry must work
 	if o.Thorough() {
-		e.asyncCase(2 * time.Second)
+		e.asyncCase(7, 1, 2*time.Second)
+		e.asyncCase(5, 5, 2*time.Second)
 	}
 	n := o.N(200, 4000)
 	for i := 0; i < n && r.InfraError == ""; i++ {
